@@ -149,6 +149,7 @@ func (s *server) HandleUpgrade(ctx *types.HttpContext) {
 
 // Called upon a ws.io connection.
 func (s *server) onWebSocket(ctx *types.HttpContext, wsc *types.WebSocketConn) {
+	utils.VerifYield("ws.upgraded", ctx.Query().Peek("sid"))
 	onUpgradeError := func(...any) {
 		server_log.Debug("websocket error before upgrade")
 		// wsc.close() not needed
